@@ -164,6 +164,20 @@ def gen_cases(ctx):
     for c in cases:
         c[2]['dh'] = 'g' if c[0] in pick else 't'
         c[1] = hs_line(c[0], c[2])
+    # several connections of one session (NumConn >= 2, reconnects): k connections with session id A and one with B on one
+    # server, in sequence and overlapped, every transport; each must end up with the key of the session it joined
+    k = 0
+    for (tr, br) in (('direct', 'chrome'), ('direct', 'firefox'), ('direct', 'safari'), ('cdn', 'chrome')):
+        for nconn in (1, 2, 3, 4):
+            for mode in ('seq', 'par'):
+                if q and not ((nconn + k) % 2 == 0 or nconn == 2):
+                    k += 1
+                    continue
+                cid = 'm%d' % k
+                enc = ['aes-gcm', 'plain', 'chacha20-poly1305', 'aes-128-gcm'][k % 4]
+                cases.append([cid, '%s MS %s %s %s %d %s m%d-%d' % (cid, tr, br, enc, nconn, mode, ctx.seed, k),
+                              dict(kind='M', transport=tr, browser=br, enc=enc, nconn=nconn, mode=mode, dh='-', name='www.example.com')])
+                k += 1
     # forged first packets: ephemeral value = a small-order X25519 input (or an encoding that is one only without the
     # bit-255 masking), block sealed by the sender under the all-zero key.  Not a handshake of any configured client:
     # only the two server-side models (this one and Model/Hello.v of C07) are compared with the real parser + decryptor
@@ -233,6 +247,20 @@ def model_line(cid, c, io):
     if c['kind'] == 'D':
         return '%s D %s %s' % (cid, c['pt'], zhex(c['now']))
     g = kv(io)
+    if c['kind'] == 'M':
+        # arrival order = index order; the first connection of a session id brings the key the server session holds
+        # (observed), the later ones a key of their own that must NOT show up anywhere
+        seen, conns = set(), []
+        for i in range(int(g.get('n', 0))):
+            sid = g['sid%d' % i]
+            name = 'A' if sid == 'a0a0' else 'B'
+            if sid not in seen and g.get('skey' + name, '-') != '-':
+                fresh = g['skey' + name]
+            else:
+                fresh = '%02x' % (0xf0 + i) * 32
+            seen.add(sid)
+            conns.append('%s:%s' % (sid, fresh))
+        return '%s MS %s' % (cid, ','.join(conns)) if conns else None
     if c['kind'] == 'F':
         if 'fp' not in g:
             return None
@@ -294,6 +322,23 @@ def run_model(ctx, lines, tag, par=4):
 def oracle(c, g):
     """Property text: the server recovers exactly the configured UID, method, encryption method, session id and flag,
     and both ends hold the same 32-byte session key.  c = configured, g = what the implementation did."""
+    if c['kind'] == 'M':
+        # property text: both ends end up with the same 32-byte session key - for EVERY connection of the session
+        n = int(g.get('n', 0))
+        for i in range(n):
+            name = 'A' if g['sid%d' % i] == 'a0a0' else 'B'
+            if g.get('ok%d' % i) != '1':
+                return 'connection %d of %d (session %s, %s) of a correctly configured client was not served' % (i + 1, n, name, c['mode'])
+            sk = g.get('skey' + name, '-')
+            if sk == '-' or g['ckey%d' % i] != sk:
+                first = [j for j in range(n) if g['sid%d' % j] == g['sid%d' % i]][0]
+                return ('session keys differ on connection %d of %d (session id %s, %s; the first connection of that session is number %d): '
+                        'client %s, server session %s' % (i + 1, n, g['sid%d' % i], c['mode'], first + 1, g['ckey%d' % i], sk))
+        if n > 1 and g.get('skeyA') == g.get('skeyB'):
+            return 'two different session ids of one user share the session key %s' % g.get('skeyA')
+        if g.get('redir') != '0':
+            return 'server redirected a connection of a correctly configured client'
+        return None
     if c['kind'] != 'H':
         return None
     enc = consts()[ENC_NAMES[c['enc']]]
@@ -319,6 +364,14 @@ def compare(c, g, mo):
     m = kv(mo)
     if c['kind'] == 'D':
         return [] if m.get('S') == g.get('S') else ['unpack: model %s implementation %s' % (m.get('S'), g.get('S'))]
+    if c['kind'] == 'M':
+        want = ','.join(g['ckey%d' % i] for i in range(int(g.get('n', 0))))
+        d = [] if m.get('keys') == want else ['session key carried by each reply: model (Model/SessionKey.v serve_keys) %s, clients obtained %s' % (m.get('keys'), want)]
+        tb = dict(x.split(':') for x in m.get('table', '').split(',') if ':' in x)
+        for name, sid in (('A', 'a0a0'), ('B', 'b0b0')):
+            if sid in tb and tb[sid] != g.get('skey' + name):
+                d.append('session table: model %s -> %s, server session %s' % (sid, tb[sid], g.get('skey' + name)))
+        return d
     if c['kind'] == 'F':
         d = [] if m.get('S') == g.get('S') else ['server_process on a forged first packet (ephemeral value %s = %s, block sealed under the all-zero key): model %s implementation %s'
                                                  % (c['point'], c['u'], m.get('S'), g.get('S'))]
@@ -438,6 +491,8 @@ def correspondence(ctx, verdict, pr):
             kinds.append('D/' + g.get('S', '?')[:8].split(':')[0] + ('/edge' if abs(abs(c['delta']) - 180 * 10**9) <= 2 * 10**9 else ''))
         elif c['kind'] == 'F':
             kinds.append('F/%s/%s' % (c['transport'], g.get('S', '?')))
+        elif c['kind'] == 'M':
+            kinds.append('M/%s/%s/k=%d/%s' % (c['transport'], c['browser'] if c['transport'] == 'direct' else '-', c['nconn'], c['mode']))
         else:
             kinds.append('%s/%s/%s/%s' % (c['kind'], c['transport'], c['browser'] if c['transport'] == 'direct' else '-', c['dh']))
             if c['kind'] == 'H' and g.get('ok') == '1':
@@ -452,7 +507,7 @@ def correspondence(ctx, verdict, pr):
             if orc_fail <= 2:
                 sig = 'C06:%s:%s:%s' % (c['transport'], c['browser'], msg.split(':')[0].split(',')[0][:40])
                 verdict.oracle_failure(sig, 'C06 oracle: ' + msg,
-                                       dict(case=line, meta=dict(c, uid=hx(c['uid']), method=hx(c['method'])), implementation=io[:4000],
+                                       dict(case=line, meta=dict(c, **{k: hx(c[k]) for k in ('uid', 'method') if k in c}), implementation=io[:4000],
                                             model=model.get(cid),
                                             how='python3 tools/check.py C06 --replay <this file>  (re-runs the handshake on the real code)'))
         mo = model.get(cid)
@@ -479,7 +534,8 @@ def correspondence(ctx, verdict, pr):
              '(incl. random) x clock offsets {-179 s, 0, +179 s, random inside} x UIDs x method names (1..12 bytes), plus 11 in-domain handshakes at the '
              'edges of the window (server clock 1 ns / 0.5 s / 0.999999999 s into a second, client ahead by 180 s minus at most that fraction; -179 s), plus out-of-domain handshakes '
              '(offsets at and beyond +-180 s, 13-byte / NUL-edged names, UIDs of 8/20/48/60 bytes) and decryptClientInfo on crafted plaintexts (window '
-             'edges to the nanosecond, int64 wraps, flag/reserved variants), and forged first packets whose ephemeral value is a small-order X25519 '
+             'edges to the nanosecond, int64 wraps, flag/reserved variants), sessions of k = 1..4 connections presenting the same (UID, session id) plus one '
+             'connection with another id on one server, in sequence and overlapped, on every transport (each connection\'s client key must equal the key of the server session it joined), and forged first packets whose ephemeral value is a small-order X25519 '
              'input with the block sealed under the all-zero key, both transports (server side only: model and code must both reject at the key agreement). distinct_nontrivial = distinct in-domain configurations whose real handshake completed',
         samples=[c[1][:300] for c in (cases[ncorpus], cases[ncorpus + nh // 2], cases[-1])],
         traces_validated_against_impl=len(impl), mismatches=len(mism), oracle_failures=orc_fail,
